@@ -235,8 +235,18 @@ pub fn exec(op: &[&str]) -> String {
                 let r = add_str(&mut c, a.as_str(), i);
                 verdicts.push(verdict(&r));
             }
+            // a command is a value: `clone_from` into a longer and into a shorter command gives that command
+            let mut longer = Command::new("status").argument("p".repeat(args.iter().map(|a| 4 * a.len() + 8).sum::<usize>() + name.len() + 40));
+            longer.clone_from(&c);
+            let mut shorter = Command::new("x");
+            shorter.clone_from(&c);
+            let mut same = c.clone();
+            same.clone_from(&c);
+            if longer != c || shorter != c || same != c {
+                return "CLONE-FROM-DIFFERS".into();
+            }
             let (mut conn, out) = connection();
-            conn.send(c).expect("send");
+            conn.send(longer).expect("send");
             let written = out.borrow().clone();
             format!("ok;{};{}", join(&verdicts), hex(&written))
         }
@@ -361,9 +371,11 @@ fn atom(r: &mut Rng, class: usize) -> String {
                 .map(|_| *r.pick(&['a', 'b', 'z', 'A', 'Q', '0', '7', '_', '-', '.', '/', ':', '(', ')', '=', '!', '~', '#', '*']))
                 .collect()
         }
-        10 => (*r.pick(&["é", "ß", "λ", "\u{80}", "\u{7ff}"])).into(),
-        11 => (*r.pick(&["日", "本", "€", "\u{800}", "\u{ffff}"])).into(),
-        12 => (*r.pick(&["🎵", "𝄞", "\u{10000}", "\u{10ffff}"])).into(),
+        // incl. characters whose code point ENDS in the byte of a quote, apostrophe or backslash
+        // (U+0122, U+0127, U+015C; U+5927, U+2122, U+2022, U+6027, U+4E5C; U+1F422, U+1F427, U+1F45C)
+        10 => (*r.pick(&["é", "ß", "λ", "\u{80}", "\u{7ff}", "\u{122}", "\u{127}", "\u{15c}"])).into(),
+        11 => (*r.pick(&["日", "本", "€", "\u{800}", "\u{ffff}", "\u{5927}", "\u{2122}", "\u{2022}", "\u{6027}", "\u{4e5c}"])).into(),
+        12 => (*r.pick(&["🎵", "𝄞", "\u{10000}", "\u{10ffff}", "\u{1f422}", "\u{1f427}", "\u{1f45c}"])).into(),
         13 => "\u{7f}".into(),
         14 => "\\\"".into(),
         _ => "!".into(), // 0x21: the smallest byte that does not force quoting
@@ -566,6 +578,13 @@ fn build_op(name: &str, args: &[String]) -> String {
 }
 
 fn gen_c06(cfg: &Cfg, r: &mut Rng, ops: &mut Vec<String>) {
+    // bare words and phrases around characters whose code point ends in 0x22 / 0x27 / 0x5C
+    for ch in ["\u{122}", "\u{127}", "\u{15c}", "\u{5927}", "\u{2122}", "\u{2022}", "\u{6027}", "\u{4e5c}", "\u{1f422}", "\u{1f427}", "\u{1f45c}", "\u{a2}", "\u{a7}", "\u{dc}"] {
+        ops.push(build_op("add", &[format!("{ch}x/01.flac")]));
+        ops.push(build_op("add", &[format!("x{ch}")]));
+        ops.push(build_op("add", &[format!("{ch} with blank")]));
+        ops.push(build_op("find", &["Artist".to_string(), ch.to_string(), format!("a{ch}b")]));
+    }
     // every name class, without and with one argument of each kind
     for n in NAMES_VALID.iter().chain(NAMES_OTHER.iter()) {
         ops.push(build_op(n, &[]));
